@@ -135,6 +135,7 @@ func uciCases(args []string) int {
 			if strings.Contains(line, "Use_Book") { // loading the book is outside the dispatcher model
 				continue
 			}
+			setCurrent(map[string]interface{}{"lines": append(append([]string{}, lines...), line), "seed": seed})
 			out, pan, hung := uciCommand(u, line)
 			if pan || hung {
 				rep.Violate("uci-panic", map[string]interface{}{"lines": append(lines, line), "seed": seed}, fmt.Sprintf("panic=%v hung=%v %s", pan, hung, out))
